@@ -175,6 +175,10 @@ func childMain(kind string) {
 		defer recordStack()
 		sink = longDispatch([]int{4, 20}, func() { panic("x") })
 		return
+	case "longnames-unicode": // long non-ASCII names: the cut of the truncation falls among multi-byte characters
+		defer recordStack()
+		sink = longDispatch([]int{5, 18, 1, 1}, func() { panic("x") })
+		return
 	case "longnames-mixed":
 		defer recordStack()
 		sink = longDispatch([]int{3, 6, 1, 2, 4, 5, 0, 3}, func() { sink = crashNil(nil) })
